@@ -608,7 +608,8 @@ def resolve_strategy_inline_recurse(path, base, decisions):
             else:
                 raise ValueError('Conflict on unrecognized key: %r' % (k,))
 
-        custom_diff = [op_addrange(d.local_diff[0].key, [cell])]
+        # A notebook node, like every other cell handed on in a diff:
+        custom_diff = [op_addrange(d.local_diff[0].key, [nbformat.from_dict(cell)])]
 
         decisions.custom(path,
             d.local_diff,
